@@ -23,12 +23,18 @@ def c12_circumstance(clause, hist, cfgname, item):
     div = item['expect']['div']
     # facts up to the call that diverged (that call included when it is the add_isohybrid itself:
     # on an always-consistent object extent assignment runs inside it)
-    fs = L.facts(hist, cfgname, (div[0]['k'] if div[0]['act'] == 'AddIsohybrid' else div[0]['k'] - 1) if div else None)
+    fs = L.facts(hist, cfgname, (div[0]['k'] if div[0]['want'] == 'ok' and div[0]['act'] != 'Reopen' else div[0]['k'] - 1) if div else None)
     if clause in ('ApiOutcomeAsModelled', 'Mastered'):
         msg = div[0]['got'] if div else item['expect']['master']
         act = div[0]['act'] if div else 'write'
         if div and div[0]['want'] == 'refuse':
             return '%s/%s:refuse->%s' % (act, div[0]['why'], ':'.join(msg.split(':')[:2]))
+        if act == 'Reopen' and 'PyCdlibInvalidISO' in msg and 'efi_cylinder_smaller_than_backup_gpt' in fs:
+            return 'efi_padding_smaller_than_backup_gpt'     # the image written at the reopen lost its tail
+        if 'UDF Anchors' in msg and 'udf_name_removed_after_reopen' in fs:
+            return 'udf_name_removed_after_reopen'
+        if 'hybrid_reopened_geometry_misread' in fs and ('ZeroDivisionError' in msg or (act == 'AddIsohybrid' and msg == 'refuse')):
+            return 'hybrid_reopened_geometry_misread'
         if 'Attempted to set EFI lba on a non-EFI ISO' in msg and 'bios_hybrid_with_efi_section' in fs:
             return 'bios_hybrid_with_efi_section'
         if ('Attempted to set Mac lba' in msg or 'Only expected two EFI sections' in msg) and 'more_efi_sections_than_used' in fs:
@@ -43,6 +49,10 @@ def c12_circumstance(clause, hist, cfgname, item):
     if 'efi' in fs and item.get('pad0', 1 << 30) < 33 * 512:
         # the backup GPT (32 sectors of entries + header) is written over the end of the ISO itself
         return 'efi_padding_smaller_than_backup_gpt'
+    if 'hybrid_reopened_geometry_misread' in fs and clause in (
+            'PaddedToCylinder', 'GeometryCoversPaddedImage', 'TailIsZero', 'PrimaryBackupMirror.Located',
+            'PrimaryBackupMirror.HeaderFields', 'IsoUnchangedModuloSystemAreaAndPadding'):
+        return 'hybrid_reopened_geometry_misread'
     if clause == 'RbaIsFourTimesBootSector':
         if 'several_platform0_entries' in fs:
             return 'several_platform0_entries'
@@ -57,6 +67,8 @@ def c12_circumstance(clause, hist, cfgname, item):
             return 'efi_section_size_differs_from_last_section'
         if clause.startswith('Mac') and 'mac_section_size_differs_from_last_section' in fs:
             return 'mac_section_size_differs_from_last_section'
+        if 'efi_section_shares_file_with_earlier_entry' in fs:
+            return 'efi_section_shares_file_with_earlier_entry'
         if 'isohybrid_on_consistent_object' in fs:
             return 'isohybrid_on_consistent_object'
     if clause in ('OneActivePartition', 'PartitionEntryAtRequestedSlot', 'PartitionType', 'PartitionOffset',
